@@ -86,7 +86,68 @@ def is_switch(test, P=None, f=None, _depth=0):
 
 
 def switch_sites(P, f):
-    return [n for n in walk_no_nested(f.node) if isinstance(n, ast.If) and is_switch(n.test, P, f) and n.orelse]
+    """The two-armed Dask / in-memory switches of f.  `if <switch>: A` whose arm ends in return / raise, followed by B, is the same
+    switch with B as the other arm: it is returned as a synthetic If (attribute _orig = the real statement, for CFG queries)."""
+    out = []
+    for n in walk_no_nested(f.node):
+        if not (isinstance(n, ast.If) and is_switch(n.test, P, f)):
+            continue
+        if n.orelse:
+            out.append(n)
+            continue
+        if n.body and isinstance(n.body[-1], (ast.Return, ast.Raise)):
+            par = getattr(n, "_parent", None)
+            rest = []
+            for fld in ("body", "orelse", "finalbody"):
+                blk = getattr(par, fld, None)
+                if isinstance(blk, list) and n in blk:
+                    rest = blk[blk.index(n) + 1:]
+            if rest:
+                t_, body_, rest_ = n.test, n.body, rest
+                if isinstance(t_, ast.UnaryOp) and isinstance(t_.op, ast.Not):
+                    t_, body_, rest_ = t_.operand, rest, n.body  # `if not dask: <in-memory>; return` + <dask part>
+                syn = ast.If(test=t_, body=body_, orelse=rest_)
+                ast.copy_location(syn, n)
+                syn._parent = par
+                syn._orig = n
+                syn._members = {id(x) for st in n.body + rest for x in ast.walk(st)} | {id(n)}
+                out.append(syn)
+    # canonical orientation: the first arm is the Dask arm (sa/canon.py already turned `if not c: A else: B` around)
+    return out
+
+
+def task_mapper(P, g):
+    """Name of the parameter of helper g that g wraps in dask.delayed and calls (a 'one task per element' mapper), else None."""
+    ps = set(g.params)
+    for c in walk_no_nested(g.node):
+        if isinstance(c, ast.Call) and isinstance(c.func, ast.Call) and (P.dotted(c.func.func, g) or "").endswith("delayed") and c.func.args and isinstance(c.func.args[0], ast.Name) and c.func.args[0].id in ps:
+            return c.func.args[0].id
+    return None
+
+
+def mapped_tasks(P, f, c):
+    """[(kernel Func, bound args)] when call c hands a function of the package to a task mapper helper."""
+    out = []
+    for t_ in P.resolve_callee(c.func, f):
+        if t_[0] != "repo":
+            continue
+        g = t_[1]
+        fp = task_mapper(P, g)
+        if fp is None:
+            continue
+        b = P.bind_args(g, c.args, c.keywords)
+        if fp not in b:
+            continue
+        for h_ in P.resolve_callee(b[fp], f):
+            if h_[0] == "repo":
+                h = h_[1]
+                # arguments: what the helper forwards by keyword (**kwargs of the call) plus the caller's arguments it maps over
+                bound = {k.arg: k.value for k in c.keywords if k.arg and k.arg not in g.params}
+                for p_, a_ in b.items():
+                    if p_ != fp and p_ in h.params:
+                        bound.setdefault(p_, a_)
+                out.append((h, bound))
+    return out
 
 
 def kernel_calls(P, f, stmts):
@@ -101,6 +162,11 @@ def kernel_calls(P, f, stmts):
                 continue
             d = P.dotted(fexpr, f) or ""
             if d in ("dask.delayed", "dask.compute", "dask.optimize"):
+                continue
+            mt = mapped_tasks(P, f, c) if kind == "plain" else []
+            if mt:
+                for h, bound in mt:
+                    out.append((h, c, bound, True))  # one task of h per element: the helper itself is plumbing
                 continue
             if kind == "plain" and isinstance(getattr(c, "_parent", None), ast.Call) and c._parent.func is c:
                 continue  # dask.delayed(f) itself
@@ -145,7 +211,7 @@ def stable_roots(P, f, du, expr, site, stmt=None, depth=0):
     def inside(st):
         p = st
         while p is not None:
-            if p is site:
+            if p is site or id(p) in getattr(site, "_members", ()):
                 return True
             p = getattr(p, "_parent", None)
         return False
@@ -271,7 +337,7 @@ def check_branch(P, R, key, rule="BRANCH"):
         kd = {(c.key if hasattr(c, "key") else c) for c, *_ in da_}
         kn = {(c.key if hasattr(c, "key") else c) for c, *_ in np_}
         # reducers that exist only because the Dask arm has several blocks are not kernels
-        aux = {"operator.add", "operator.iadd", "factor_analysis:reduce_iadd", "builtins.list"}
+        aux = {"operator.add", "operator.iadd", "factor_analysis:reduce_iadd", "builtins.list", "utils:array_to_delayed_list"}
         only_d, only_n = kd - kn - aux, kn - kd - aux
         # helper that selects a class's statistics in the in-memory arm
         only_n = {k for k in only_n if not k.endswith("_get_statistics_by_class_id")}
@@ -299,8 +365,9 @@ def check_branch(P, R, key, rule="BRANCH"):
                 if src(a1) == src(a2):
                     R.ok(rule + ".args", key, w, "identical", call.lineno)
                     continue
-                r1 = stable_roots(P, f, du, a1, site)
-                r2 = stable_roots(P, f, du, a2, site)
+                flags = {x.id for x in ast.walk(site.test) if isinstance(x, ast.Name)}  # the switch itself is not an input of the computation
+                r1 = stable_roots(P, f, du, a1, site) - flags
+                r2 = stable_roots(P, f, du, a2, site) - flags
                 if r2 <= r1 and r1 - r2 <= {"y"}:
                     r1 = r2  # the Dask arm may additionally use the labels: it works on per-class splits of the same data
                 if isinstance(a1, ast.Subscript) and isinstance(a2, ast.Subscript) and src(a1.value) == src(a2.value):
@@ -322,11 +389,11 @@ def check_branch(P, R, key, rule="BRANCH"):
             return out
         bd, bn = bound(site.body), bound(site.orelse)
         for name in sorted(bd ^ bn):
-            if du.reaching(site, name):
+            if du.reaching(getattr(site, "_orig", site), name):
                 continue  # the name already holds a value before the switch (a parameter or an earlier local)
             used_after = False
             for s2 in du.cfg.nodes():
-                if du.cfg.reach_avoiding(site, s2) and not any(s2 is x for x in walk_no_nested(site)):
+                if du.cfg.reach_avoiding(getattr(site, "_orig", site), s2) and not any(s2 is x for x in walk_no_nested(site)):
                     for d_ in du.reaching(s2, name):
                         if d_.stmt is not None and any(d_.stmt is x for x in walk_no_nested(site)):
                             from ..dataflow import header_exprs
@@ -378,7 +445,7 @@ def check_copyback(P, R, own, key, sinks, rule="COPYBACK"):
                     ok_src = srcobj is not None
                     if ok_src:
                         c = cone(du, srcobj, du.stmt_of(st), interproc=False)
-                        ok_src = any(isinstance(x, ast.Call) and (P.dotted(x.func, f) or "").endswith("compute") for x in c.nodes)
+                        ok_src = any(isinstance(x, ast.Call) and ((P.dotted(x.func, f) or "").endswith("compute") or (isinstance(x.func, ast.Attribute) and x.func.attr == "compute")) for x in c.nodes)
                     if ok_src:
                         back |= setter_expansion(P, own, f.cls, name)
                     else:
@@ -387,7 +454,7 @@ def check_copyback(P, R, own, key, sinks, rule="COPYBACK"):
                 for st, t, v, k in stores(s_):
                     if isinstance(t, ast.Attribute) and isinstance(t.value, ast.Name) and t.value.id == f.self_name and v is not None:
                         c = cone(du, v, du.stmt_of(st), interproc=False)
-                        if any(isinstance(x, ast.Call) and (P.dotted(x.func, f) or "").endswith("compute") for x in c.nodes):
+                        if any(isinstance(x, ast.Call) and ((P.dotted(x.func, f) or "").endswith("compute") or (isinstance(x.func, ast.Attribute) and x.func.attr == "compute")) for x in c.nodes):
                             back |= setter_expansion(P, own, f.cls, t.attr)
             for st in unk_:
                 R.undecided(rule, key, src(st)[:60], "dynamic setattr outside the literal-list idiom")
@@ -406,8 +473,11 @@ def check_tasks_pure(P, R, own, key, sinks, allow=(), rule="PURE.task"):
             continue
         kind, fexpr, args, kws = P.peel_call(c, f)
         if kind != "task":
-            continue
-        tg = [t[1] for t in P.resolve_callee(fexpr, f) if t[0] == "repo"]
+            tg = [h for h, _b in mapped_tasks(P, f, c)] if kind == "plain" else []
+            if not tg:
+                continue
+        else:
+            tg = [t[1] for t in P.resolve_callee(fexpr, f) if t[0] == "repo"]
         for callee in tg:
             nm = callee.qualname.split(".")[-1]
             if nm in sinks:
